@@ -294,12 +294,21 @@ class SchedObsHarness:
         w.log.clear()
         self.unlocked = []
         raised = None
+        slot = o.fields.get("disposable")
+        slot0 = slot.fields.get("current") if isinstance(slot, Obj) else None
         try:
             it.call(it.get_attr(o, "run"), [self.sched, None], {})
         except PyExc as e:
             raised = e.value
         self.role, self.holds_token = None, False
         self.rec(ctx, uid + "/touches-shared-state-only-under-the-lock", not self.unlocked, detail=f"{self.unlocked}")
+        # frame: the handle slot `self.disposable` is the producer's - ensure_active writes it outside the lock, AFTER the run it
+        # scheduled may already have executed on the scheduler's thread.  With run as a second writer, that late write would dispose
+        # (cancel) the drain run has just queued while is_acquired stays True: notifications left undelivered with an idle scheduler
+        slot1 = slot.fields.get("current") if isinstance(slot, Obj) else None
+        self.rec(ctx, uid + "/frame/leaves-the-producer's-handle-slot-alone-and-cancels-nothing",
+                 slot is o.fields.get("disposable") and slot1 is slot0 and not [e for e in w.log if e[0] == "dispose"],
+                 detail="self.disposable is written by ensure_active (unlocked, possibly after the scheduled run already ran): run must not write it too")
         rel = [e for e in w.log if e[0] == "release"]
         work = [e for e in w.log if e[0] == "work"]
         sch = [e for e in w.log if e[0] == "schedule"]
